@@ -41,9 +41,10 @@ def gen_scenario(rng):
     seq = []
     idx = [0] * len(chains)
     bias_first = rng.random() < 0.7
+    hold = rng.choice([0, 1, 2, 3, 3, 3])    # how far the reader gets before the others may start
     while any(i < len(c) for i, c in zip(idx, chains)):
         cand = [k for k, c in enumerate(chains) if idx[k] < len(c)]
-        if bias_first and idx[0] == 0:
+        if bias_first and idx[0] < min(hold, len(chains[0])):
             k = 0
         else:
             k = rng.choice(cand)
